@@ -102,7 +102,7 @@ class SDIL:
 
     def get_index(self) -> int:
         idx = 0
-        for power in range(3):
+        for power in range(4):
             idx += 1 << power if self.value[power] else 0
 
         return idx
